@@ -249,8 +249,9 @@ fn check_case(case: &Case, col: &Collector) {
 pub fn cases(quick: bool) -> Vec<Case> {
     let mut out = Vec::new();
     let weights: Vec<i64> = vec![1, 2, 3];
-    let freqs: Vec<u32> = if quick { vec![0, 1, 3, 17] } else { vec![0, 1, 2, 3, 16, 17] };
-    let inc_freqs: Vec<u32> = if quick { vec![0, 1, 3, 17] } else { vec![0, 1, 2, 3, 16, 17] };
+    // number of recorded accesses -> estimate min(n, 16): 15 is the 4-bit ceiling, 16 = ceiling + first-access bit
+    let freqs: Vec<u32> = if quick { vec![0, 1, 3, 17] } else { vec![0, 1, 2, 3, 15, 16, 17] };
+    let inc_freqs: Vec<u32> = if quick { vec![0, 1, 3, 15, 16, 17] } else { vec![0, 1, 2, 3, 15, 16, 17] };
     let ws: Vec<i64> = if quick { vec![3, 4] } else { vec![3, 4, 5, 6] };
     let max_len = if quick { 3 } else { 4 };
     for &w in &ws {
@@ -294,7 +295,7 @@ pub fn cases(quick: bool) -> Vec<Case> {
         for p in profiles {
             for w in [7i64, 8] {
                 for iw in [1i64, 2, 3, 5, w, w + 1] {
-                    for f in [0u32, 1, 2, 3, 17] {
+                    for f in [0u32, 1, 2, 3, 15, 17] {
                         for constant_hash in [false, true] {
                             out.push(Case { w, residents: p.iter().map(|f| (1, *f)).collect(), incoming_weight: iw, incoming_accesses: f, single_shard: false, constant_hash });
                         }
